@@ -320,13 +320,38 @@ func layoutCompareGeo(a, b layoutGeo) (problems []string, counterDiffers bool) {
 	return
 }
 
+// layoutBitset: reusable "slot index seen" set (the module is single-threaded per process).
+type layoutBitset struct{ w []uint64 }
+
+func (b *layoutBitset) reset(n uint64) {
+	need := int(n/64) + 1
+	if cap(b.w) < need {
+		b.w = make([]uint64, need+need/2)
+	}
+	b.w = b.w[:need]
+	for i := range b.w {
+		b.w[i] = 0
+	}
+}
+
+// testAndSet reports whether i was already in the set.
+func (b *layoutBitset) testAndSet(i uint64) bool {
+	m := uint64(1) << (i & 63)
+	old := b.w[i>>6]&m != 0
+	b.w[i>>6] |= m
+	return old
+}
+
+var layoutWalkSeen, layoutPopSeen layoutBitset
+
 // layoutWalk follows the free list of one class: it must visit exactly want distinct slot offsets, every slot header
 // must carry the class's capPerBuffer, and the last node must be tail.
 func layoutWalk(l *bufferList, want int) string {
 	cpb := *l.capPerBuffer
 	stride := uint64(cpb) + bufferHeaderSize
 	nSlots := uint64(*l.cap)
-	seen := make(map[uint32]struct{}, want)
+	layoutWalkSeen.reset(nSlots)
+	visited := 0
 	cur := *l.head
 	for n := 0; ; n++ {
 		if n > want {
@@ -335,10 +360,10 @@ func layoutWalk(l *bufferList, want int) string {
 		if uint64(cur)%stride != 0 || uint64(cur)/stride >= nSlots || uint64(cur)+bufferHeaderSize > uint64(len(l.bufferRegion)) {
 			return fmt.Sprintf("node %d at region offset %d is not one of the %d slots (stride %d, region %d bytes)", n, cur, nSlots, stride, len(l.bufferRegion))
 		}
-		if _, dup := seen[cur]; dup {
+		if layoutWalkSeen.testAndSet(uint64(cur) / stride) {
 			return fmt.Sprintf("cycle: slot at %d visited twice", cur)
 		}
-		seen[cur] = struct{}{}
+		visited++
 		h := bufferHeader(l.bufferRegion[cur : cur+bufferHeaderSize])
 		if c := *(*uint32)(unsafe.Pointer(&h[bufferCapOffset])); c != cpb {
 			return fmt.Sprintf("slot header at %d says cap %d, class has %d", cur, c, cpb)
@@ -348,8 +373,8 @@ func layoutWalk(l *bufferList, want int) string {
 		}
 		cur = h.nextBufferOffset()
 	}
-	if len(seen) != want {
-		return fmt.Sprintf("free list has %d nodes, expected %d", len(seen), want)
+	if visited != want {
+		return fmt.Sprintf("free list has %d nodes, expected %d", visited, want)
 	}
 	if cur != *l.tail {
 		return fmt.Sprintf("last node at %d but tail=%d", cur, *l.tail)
@@ -368,7 +393,7 @@ func layoutPopAll(bm *bufferManager, g layoutGeo, caseKey uint64, bad func(strin
 	for i, l := range bm.lists {
 		cl := g.Classes[i]
 		stride := uint64(cl.CapPerBuffer) + bufferHeaderSize
-		seen := make(map[uint32]struct{}, cl.Cap)
+		layoutPopSeen.reset(uint64(cl.Cap))
 		for {
 			s, err := l.pop()
 			if err != nil {
@@ -385,10 +410,9 @@ func layoutPopAll(bm *bufferManager, g layoutGeo, caseKey uint64, bad func(strin
 				bad("class %d: slice at offset %d is not one of the %d slots of region %d (stride %d)", i, off, cl.Cap, cl.RegionOff, stride)
 				continue
 			}
-			if _, dup := seen[off]; dup {
+			if layoutPopSeen.testAndSet(uint64(rel) / stride) {
 				bad("class %d: offset %d handed out twice", i, off)
 			}
-			seen[off] = struct{}{}
 			if s.cap != cl.CapPerBuffer || uint32(len(s.data)) != cl.CapPerBuffer {
 				bad("class %d: slice at %d has cap %d / %d data bytes, class capPerBuffer is %d", i, off, s.cap, len(s.data), cl.CapPerBuffer)
 				continue
